@@ -539,6 +539,7 @@ package godi
 //@   ensures[C13,C16] success_returns_new_scope: ncalls("newScope") == 1 && callret("newScope", 0, 1) == nil && result1 == nil ==> result0 == box(callret("newScope", 0, 0, "*scope")) && ncalls("go:provider.CreateScope$1") == 1
 //@   ensures[C13] closed_meanwhile_is_refused: ncalls("scope.Close") == 1 ==> result0 == nil && result1 == ErrProviderDisposed && callarg("scope.Close", 0, 0) == callret("newScope", 0, 0) && ncalls("go:provider.CreateScope$1") == 0
 //@   at before call p.scopesMu.Unlock#2 : assert[C13] tracked: p.scopes != nil && (s in p.scopes)
+//@   ensures[C14,C13] a_scope_closed_during_its_creation_is_not_tracked: result1 == nil ==> ncalls("atomic.Load:disposed") == 2 && callret("atomic.Load:disposed", 1, 0) == 0
 //
 //@ func provider.CreateScope$1
 //@   mode conc
